@@ -53,9 +53,9 @@ func MakeCase(harness, tier, prop string, m Model) ReplayCase {
 }
 
 // SetAmplify marks a case for the amplified native attempt.
-func SetAmplify(c *ReplayCase) {
-	t := true
-	c.Model["vrt.amplify"] = replayValue{B: &t}
+func SetAmplify(c *ReplayCase, mode int) {
+	m := int64(mode)
+	c.Model["vrt.amplify"] = replayValue{I: &m}
 }
 
 // WriteReplayDir writes cases.json, overlay.json and a run.sh into dir.
